@@ -68,6 +68,10 @@ func longAlternation(n, l int) string {
 
 func init() {
 	corpus = append(corpus, longAlternation(70, 5), longAlternation(120, 3), longAlternation(40, 4), "("+longAlternation(66, 4)+")x", longAlternation(300, 4))
+	// more of the SIMD multi-literal prefilters (Fat Teddy 33..64 literals, slim Teddy
+	// below), bare and with a tail that the prefilter's candidates must be verified against
+	corpus = append(corpus, longAlternation(34, 3), longAlternation(56, 5), "(?:"+longAlternation(48, 4)+`)\d+`, `\b(?:`+longAlternation(36, 6)+`)\b`,
+		longAlternation(8, 4), longAlternation(20, 3), "(?:"+longAlternation(12, 5)+")[xyz]")
 }
 
 // mutatePattern returns a syntactic neighbour of p (or p itself), so that
@@ -210,6 +214,41 @@ func genNoise(r *rng, alpha []string, n int) []byte {
 	return out
 }
 
+// genFlood builds a near-miss flood: a long run of almost-members (a prefilter's
+// candidates that verification rejects, one after the other) with a real member late
+// or never; the paths that give up on a prefilter, batch its candidates or fall back
+// to another engine only run on this shape.
+func genFlood(r *rng, re *syntax.Regexp, alpha []string, class int) []byte {
+	n := r.between(20, 60)
+	if class >= 3 {
+		n = r.between(40, 150)
+	}
+	at := -1
+	if r.p(2, 3) {
+		at = n - 1 - r.n(n/3+1)
+	}
+	var out []byte
+	for i := 0; i < n; i++ {
+		m := genMatch(r, re, 0)
+		if i != at && len(m) > 0 {
+			switch r.n(3) {
+			case 0:
+				m = m[:len(m)-1]
+			case 1:
+				m[len(m)-1] ^= 0x21
+			case 2:
+				m[r.n(len(m))] = pick(r, alpha)[0]
+			}
+		}
+		out = append(out, m...)
+		out = append(out, genNoise(r, alpha, r.n(3))...)
+		if len(out) > 6000 {
+			break
+		}
+	}
+	return out
+}
+
 // genHaystack builds one haystack for pattern p. size class: 0 tiny, 1 short,
 // 2 medium, 3 long (>= 1 KB), 4 very long.
 func genHaystack(r *rng, p string, re *syntax.Regexp, alpha []string, class int) []byte {
@@ -249,6 +288,9 @@ func genHaystack(r *rng, p string, re *syntax.Regexp, alpha []string, class int)
 			}
 		}
 		return m
+	}
+	if class >= 2 && r.p(1, 8) {
+		return genFlood(r, re, alpha, class)
 	}
 	if r.p(1, 3) {
 		alpha = patternOnlyAlphabet(alpha)
